@@ -9,4 +9,10 @@ cargo build --profile strict -p vcheck
 if [ -d "$ROOT/harness/vderive" ]; then
   cargo build --profile strict -p vderive
 fi
+# second builds of C04 / C01 against other feature sets of clap (own workspaces)
+for v in plain minimal; do
+  if [ -d "$ROOT/harness/$v" ]; then
+    ( cd "$ROOT/harness/$v" && cargo build --profile strict )
+  fi
+done
 echo "setup ok"
